@@ -16,8 +16,11 @@ per excluded class (each replayed on the real code by corpus/C15/finding-*.case)
 -/
 import Cascette.Proofs.RibbitRoundTrip
 import Cascette.Proofs.RibbitServer
+import Cascette.Proofs.RibbitE2E
+import Cascette.Proofs.RibbitConn
 namespace Cascette.Props.C15
 open Cascette.Model.Bpsv Cascette.Model.Ribbit Cascette.Proofs.Bpsv Cascette.Proofs.Ribbit
+open Cascette.Model.RibbitConn Cascette.Proofs.RibbitConn
 
 /-! ### the explicit hypotheses -/
 
@@ -375,5 +378,355 @@ theorem witness_boundary :
 theorem witness_seqn_overflow : parse (versionsText wRec (2 ^ 32)) = .error .seqn := by
   decide +kernel
 
+
+/-! ### end to end: `query (respond db req)` on all three transports -/
+
+/-- the characters `TactClient`/`reqwest`/axum pass through unchanged (the HTTP leg is claimed —
+and compared with the code — on these product names only). -/
+def httpPlainChar (c : Char) : Bool :=
+  isDigit c || (97 ≤ c.toNat && c.toNat ≤ 122) || (65 ≤ c.toNat && c.toNat ≤ 90) ||
+    c == '_' || c == '-' || c == '.'
+
+def HttpPlain (p : Str) : Prop :=
+  p ≠ [] ∧ p.all httpPlainChar = true ∧ p ≠ ['.'] ∧ p ≠ ['.', '.']
+
+/-- a well-formed product request: the product name is one path segment on one line; over HTTP
+additionally URL-plain. -/
+structure WellFormed (q : Req) : Prop where
+  noslash : '/' ∉ q.product
+  nonl : '\n' ∉ q.product
+  http : q.t = .http → HttpPlain q.product
+
+/-- what a reply text must avoid for the TCP framings to be transparent: over V1 the MIME
+boundary text, over V2 anything that says `content-type:`. Over HTTP nothing. -/
+def WireOk (t : Transport) (s : Str) : Prop :=
+  (t = .v1 → NoBoundary s) ∧ (t = .v2 → NoLookalike s)
+
+/-- **transport_transparent.** For every database, every well-formed product request on any of
+the three transports and every hash: if the product has a record, the client's `query` applied to
+the server's reply returns what the BPSV reader makes of the server's BPSV text — provided the
+text does not contain the MIME boundary (V1) / does not look like MIME (V2). The request line
+(`{endpoint}\r\n` → `read_line` → `trim`), the routing (`split('/')`, prefixes, endpoint names),
+`wrap_in_mime`, the V1/V2 detection, the checksum check and the MIME body extraction are all
+inside this statement. -/
+theorem transport_transparent (H : Str → Str) (hH : GoodHash H) (s : Server) (seqn : Nat) (q : Req)
+    (r : Record) (hq : WellFormed q) (hr : latest s.db q.product = some r)
+    (hw : WireOk q.t (respondBpsv s seqn r q.ep)) :
+    query H (respond H s seqn q) = liftParse (respondBpsv s seqn r q.ep) := by
+  unfold respond respondTo
+  cases ht : q.t with
+  | http =>
+    simp only [query]
+    rw [handleHttp_endpoint s seqn q ht hq.noslash (hq.http ht).1, hr]
+    rfl
+  | v1 =>
+    simp only [query]
+    rw [tcpExchange_endpoint H s seqn q hq.noslash hq.nonl, hr]
+    simp only [Option.map_some, Option.getD_some, wire, ht, reduceCtorEq, ↓reduceIte]
+    exact clientTcp_wrap H hH _ (hw.1 ht)
+  | v2 =>
+    simp only [query]
+    rw [tcpExchange_endpoint H s seqn q hq.noslash hq.nonl, hr]
+    simp only [Option.map_some, Option.getD_some, wire, ht, ↓reduceIte]
+    exact clientTcp_plain H _ (hw.2 ht)
+
+theorem clientTcp_closed (H : Str → Str) : clientTcp H [] = .error (.bpsv .emptyDocument) := by
+  unfold clientTcp
+  rw [show isV1Mime [] = false by decide]
+  simp only [Bool.false_eq_true, ↓reduceIte]
+  decide
+
+/-- **unknown_product_no_data.** A well-formed request for a product the database does not have:
+TCP closes without a reply, HTTP says 404, and the client returns an error on every transport. -/
+theorem unknown_product_no_data (H : Str → Str) (s : Server) (seqn : Nat) (q : Req)
+    (hq : WellFormed q) (hr : latest s.db q.product = none) :
+    respond H s seqn q = (if q.t = .http then .http none else .tcp []) ∧
+    ∃ e, query H (respond H s seqn q) = .error e := by
+  unfold respond respondTo
+  cases ht : q.t with
+  | http =>
+    rw [handleHttp_endpoint s seqn q ht hq.noslash (hq.http ht).1, hr]
+    exact ⟨rfl, .http404, rfl⟩
+  | v1 =>
+    simp only
+    rw [tcpExchange_endpoint H s seqn q hq.noslash hq.nonl, hr]
+    exact ⟨rfl, .bpsv .emptyDocument, clientTcp_closed H⟩
+  | v2 =>
+    simp only
+    rw [tcpExchange_endpoint H s seqn q hq.noslash hq.nonl, hr]
+    exact ⟨rfl, .bpsv .emptyDocument, clientTcp_closed H⟩
+
+/-! #### the reply texts stay clear of the framing patterns when the free-text fields do -/
+
+theorem versionsFields_all (P : Str → Prop) (hP : ∀ x, Plain x → P x) (r : Record) (n : Int)
+    (hv : validate r = none) (hc : CleanVersions r n) (hver : P r.version) :
+    ∀ reg ∈ versionsRegions, ∀ f ∈ versionsFields r reg, P f := by
+  have V := validate_none r hv
+  intro reg hreg f hf
+  simp only [versionsFields, List.mem_cons, List.mem_nil_iff, or_false] at hf
+  rcases hf with rfl | rfl | rfl | rfl | rfl | rfl | rfl
+  · exact hP _ (plain_versionsRegions _ hreg)
+  · exact hP _ (plain_hex _ (validHash_hexOk _ V.buildConfig))
+  · exact hP _ (plain_hex _ (validHash_hexOk _ V.cdnConfig))
+  · exact hP _ (plain_hex _ hc.keyring_hex)
+  · exact hP _ (plain_i64 _ n hc.build_i64)
+  · exact hver
+  · exact hP _ (plain_hex _ V.pcHex)
+
+theorem versionsText_wireOk (t : Transport) (r : Record) (n : Int) (seqn : Nat)
+    (hv : validate r = none) (hc : CleanVersions r n) (hw : WireOk t r.version) :
+    WireOk t (versionsText r seqn) := by
+  constructor
+  · intro ht
+    exact (noBoundary_iff _).2 (freeB_document versionsHeader versionsRegions (versionsFields r) seqn
+      plain_versionsHeader.B
+      (versionsFields_all _ (fun _ h => h.B) r n hv hc ((noBoundary_iff _).1 (hw.1 ht))))
+  · intro ht
+    exact freeC_document versionsHeader versionsRegions (versionsFields r) seqn
+      plain_versionsHeader.C (versionsFields_all _ (fun _ h => h.C) r n hv hc (hw.2 ht))
+
+theorem cdnsText_wireOk (t : Transport) (c : Cdn) (seqn : Nat)
+    (hw : ∀ f ∈ [c.path, c.hosts, c.servers, c.configPath], WireOk t f) :
+    WireOk t (cdnsText c seqn) := by
+  have hall : ∀ (P : Str → Prop), (∀ x, Plain x → P x) →
+      (∀ f ∈ [c.path, c.hosts, c.servers, c.configPath], P f) →
+      ∀ reg ∈ cdnsRegions, ∀ f ∈ cdnsFields c reg, P f := by
+    intro P hP hf reg hreg f hfm
+    simp only [cdnsFields, List.mem_cons, List.mem_nil_iff, or_false] at hfm
+    rcases hfm with rfl | hfm
+    · exact hP _ (plain_cdnsRegions _ hreg)
+    · exact hf f (by simpa using hfm)
+  constructor
+  · intro ht
+    exact (noBoundary_iff _).2 (freeB_document cdnsHeader cdnsRegions (cdnsFields c) seqn
+      plain_cdnsHeader.B
+      (hall _ (fun _ h => h.B) (fun f hf => (noBoundary_iff _).1 ((hw f hf).1 ht))))
+  · intro ht
+    exact freeC_document cdnsHeader cdnsRegions (cdnsFields c) seqn
+      plain_cdnsHeader.C (hall _ (fun _ h => h.C) (fun f hf => (hw f hf).2 ht))
+
+theorem summaryText_noBoundary (prods : List Str) (seqn : Nat) (hp : ∀ p ∈ prods, NoBoundary p) :
+    NoBoundary (summaryText prods seqn) := by
+  have hfun : (fun p : Str => p ++ bar ++ natDigits seqn) = fun p => joinWith bar [p, natDigits seqn] := by
+    funext p; simp [joinWith]
+  unfold summaryText summaryLines
+  rw [hfun]
+  refine (noBoundary_iff _).2 (freeB_document summaryHeader prods (fun p => [p, natDigits seqn]) seqn
+    plain_summaryHeader.B ?_)
+  intro p hpm f hf
+  simp only [List.mem_cons, List.mem_nil_iff, or_false] at hf
+  rcases hf with rfl | rfl
+  · exact (noBoundary_iff _).1 (hp _ hpm)
+  · exact (plain_digits seqn).B
+
+/-! #### the property, end to end -/
+
+/-- **client_reads_server (versions, bgdl), end to end.** For every database the server accepts
+(`load`), every well-formed `versions`/`bgdl` request on TCP v1, TCP v2 or HTTP for a product whose
+newest record (`latest`) is `r`, every hash and every sequence number below 2^32: what the client's
+`query` returns for the server's reply is the document with the seven region rows carrying `r`'s
+strings, typed — under `CleanVersions r` (what `validate` leaves open and the reader cannot read
+back) and, on the TCP framings only, `WireOk` of the version string. -/
+theorem client_reads_server_versions (H : Str → Str) (hH : GoodHash H) (recs : List Record)
+    (s : Server) (seqn : Nat) (q : Req) (r : Record) (n : Int)
+    (hload : load recs = .ok s.db) (hq : WellFormed q) (hep : q.ep = .versions ∨ q.ep = .bgdl)
+    (hr : latest s.db q.product = some r) (hc : CleanVersions r n) (hw : WireOk q.t r.version)
+    (hs : seqn < 2 ^ 32) :
+    query H (respond H s seqn q) =
+      .ok ⟨versionsSchema, versionsRegions.map (versionsRow r n), some seqn⟩ := by
+  have hmem : r ∈ s.db := by
+    rcases newest_is_max_build_time s.db q.product with ⟨hn, _⟩ | ⟨m, hm, hin, _⟩
+    · rw [hn] at hr; cases hr
+    · rw [hm] at hr; cases hr; exact hin
+  have hv : validate r = none := (load_ok recs s.db hload).2.2 r hmem
+  have hbody : respondBpsv s seqn r q.ep = versionsText r seqn := by
+    rcases hep with h | h <;> rw [h] <;> rfl
+  rw [transport_transparent H hH s seqn q r hq hr (by rw [hbody]; exact versionsText_wireOk _ r n seqn hv hc hw),
+    hbody]
+  unfold liftParse
+  rw [client_reads_server_versions_partial r n seqn hv hc hs]
+
+/-- **client_reads_server (cdns), end to end**, all three transports. -/
+theorem client_reads_server_cdns (H : Str → Str) (hH : GoodHash H) (s : Server) (seqn : Nat)
+    (q : Req) (r : Record) (hq : WellFormed q) (hep : q.ep = .cdns)
+    (hr : latest s.db q.product = some r) (hc : CleanCdn (resolve r s.cdn))
+    (hw : ∀ f ∈ [(resolve r s.cdn).path, (resolve r s.cdn).hosts, (resolve r s.cdn).servers,
+      (resolve r s.cdn).configPath], WireOk q.t f)
+    (hs : seqn < 2 ^ 32) :
+    query H (respond H s seqn q) =
+      .ok ⟨cdnsSchema, cdnsRegions.map (cdnsRow (resolve r s.cdn)), some seqn⟩ := by
+  have hbody : respondBpsv s seqn r q.ep = cdnsText (resolve r s.cdn) seqn := by rw [hep]; rfl
+  rw [transport_transparent H hH s seqn q r hq hr (by rw [hbody]; exact cdnsText_wireOk _ _ seqn hw),
+    hbody]
+  unfold liftParse
+  rw [client_reads_server_cdns_partial _ seqn hc hs]
+
+/-- **client_reads_server (v1/summary), end to end** (TCP v1 is the only transport that has it):
+one row per product, in the server's order. -/
+theorem client_reads_server_summary (H : Str → Str) (hH : GoodHash H) (s : Server) (seqn : Nat)
+    (hp : ∀ p ∈ s.order, CleanProduct p ∧ NoBoundary p) (hs : seqn < 2 ^ 32) :
+    query H (respondSummary H s seqn) =
+      .ok ⟨summarySchema, s.order.map (summaryRow seqn), some seqn⟩ := by
+  unfold respondSummary respondTo
+  simp only [query]
+  rw [tcpExchange_summary, clientTcp_wrap H hH _ (summaryText_noBoundary _ seqn (fun p h => (hp p h).2))]
+  unfold liftParse
+  rw [client_reads_server_summary_partial _ seqn (fun p h => (hp p h).1) hs]
+
+/-! #### the hypotheses are satisfiable (one instance per transport; kernel-evaluated test of the
+whole pipeline on it) -/
+
+def wServer : Server := ⟨[wRec], defaultCdn "cdn.test.com".toList "tpr/wow".toList, ["wow".toList]⟩
+def zeroHash : Str → Str := fun _ => List.replicate 64 '0'
+
+theorem zeroHash_good : GoodHash zeroHash := by
+  intro x
+  refine ⟨by simp [zeroHash], ?_⟩
+  intro c hc
+  simp only [zeroHash, List.mem_replicate] at hc
+  rw [hc.2]; decide
+
+theorem wReq_wellFormed (t : Transport) (e : Endpoint) : WellFormed ⟨t, "wow".toList, e⟩ :=
+  ⟨show '/' ∉ "wow".toList by decide, show '\n' ∉ "wow".toList by decide,
+    fun _ => ⟨show "wow".toList ≠ [] by decide, show "wow".toList.all httpPlainChar = true by decide +kernel,
+      show "wow".toList ≠ ['.'] by decide, show "wow".toList ≠ ['.', '.'] by decide⟩⟩
+
+example (t : Transport) :
+    query zeroHash (respond zeroHash wServer 5 ⟨t, "wow".toList, .versions⟩) =
+      .ok ⟨versionsSchema, versionsRegions.map (versionsRow wRec 32600), some 5⟩ :=
+  client_reads_server_versions zeroHash zeroHash_good [wRec] wServer 5 _ wRec 32600
+    (by decide +kernel) (wReq_wellFormed t _) (.inl rfl)
+    (show latest wServer.db "wow".toList = some wRec by decide +kernel)
+    ⟨HexOk.nil, by decide +kernel, by decide +kernel, by decide +kernel⟩
+    ⟨fun _ => by unfold NoBoundary; decide +kernel, fun _ => by unfold NoLookalike; decide +kernel⟩
+    (by decide)
+
+example (t : Transport) :
+    query zeroHash (respond zeroHash wServer 5 ⟨t, "wow".toList, .cdns⟩) =
+      .ok ⟨cdnsSchema, cdnsRegions.map (cdnsRow (resolve wRec wServer.cdn)), some 5⟩ :=
+  client_reads_server_cdns zeroHash zeroHash_good wServer 5 _ wRec (wReq_wellFormed t _) rfl
+    (show latest wServer.db "wow".toList = some wRec by decide +kernel)
+    ⟨by decide +kernel, by decide +kernel, by decide +kernel⟩
+    (by
+      intro f hf
+      simp only [List.mem_cons, List.mem_nil_iff, or_false] at hf
+      rcases hf with rfl | rfl | rfl | rfl <;>
+        exact ⟨fun _ => by unfold NoBoundary; decide +kernel, fun _ => by unfold NoLookalike; decide +kernel⟩)
+    (by decide)
+
+example : query zeroHash (respondSummary zeroHash wServer 5) =
+    .ok ⟨summarySchema, wServer.order.map (summaryRow 5), some 5⟩ :=
+  client_reads_server_summary zeroHash zeroHash_good wServer 5
+    (by
+      intro p hp
+      simp only [wServer, List.mem_singleton] at hp
+      subst hp
+      exact ⟨⟨'w', "ow".toList, by decide, by decide, by decide, by decide, by decide⟩,
+        by unfold NoBoundary; decide +kernel⟩)
+    (by decide)
+
+/-- test (kernel evaluation of the executable model, no theorem involved): the whole pipeline
+request line → server → framing → client on the instance, all three transports. -/
+theorem e2e_instance :
+    [Transport.v1, .v2, .http].all (fun t =>
+      readsBack (match query zeroHash (respond zeroHash wServer 1700000000 ⟨t, "wow".toList, .versions⟩) with
+        | .ok d => .ok d | .error _ => .error .emptyDocument)
+        (versionsRegions.map (versionsFields wRec))) = true := by
+  decide +kernel
+
+
+/-! ### "keeps answering other clients": the per-connection tasks are isolated -/
+
+/-- **connection_isolated.** For every interleaving `evs` of socket events (bytes arriving in any
+segmentation, half-closes, read timeouts, on any number of sockets), every prior state `σ` of the
+other tasks and every socket `i`: the outputs the server produces on `i`, and the state `i`'s task
+ends in, are those of `i`'s task run alone on `i`'s own events. The shared parameters (`sh`:
+database, CDN defaults, hash, clock) are the same on both sides and nothing writes them. -/
+theorem connection_isolated (sh : Shared) (evs : List (Nat × Ev)) (σ : Conns) (i : Nat) :
+    outsOf i (srvRun sh σ evs).2 = (connRun sh (getConn σ i) (proj i evs)).2 ∧
+    getConn (srvRun sh σ evs).1 i = (connRun sh (getConn σ i) (proj i evs)).1 :=
+  ⟨(srvRun_proj sh evs σ i).2, (srvRun_proj sh evs σ i).1⟩
+
+/-- **one_reply_per_connection.** A socket gets at most one output (reply or close) whatever is
+sent on it and around it. -/
+theorem one_reply_per_connection (sh : Shared) (evs : List (Nat × Ev)) (σ : Conns) (i : Nat) :
+    (outsOf i (srvRun sh σ evs).2).length ≤ 1 := by
+  rw [(srvRun_proj sh evs σ i).2]
+  exact connRun_outputs_le_one sh _ _
+
+/-- **keeps_answering_other_clients.** Whatever the other sockets do (unterminated lines held
+open, oversized or non-UTF-8 input, closes, timeouts) and in whatever order the events of all
+sockets are interleaved: a freshly accepted socket `j` on which `chunks` arrive (any segmentation)
+followed by a half-close is answered exactly `connAnswer` of its own bytes — the reply
+`handle_connection` gives to those bytes alone, or a close — and nothing else. -/
+theorem keeps_answering_other_clients (sh : Shared) (evs : List (Nat × Ev)) (σ : Conns) (j : Nat)
+    (chunks : List (List Nat)) (rest : List Ev) (hfresh : getConn σ j = .reading [])
+    (hproj : proj j evs = chunks.map .data ++ .eof :: rest) :
+    outsOf j (srvRun sh σ evs).2 = [connAnswer sh chunks.flatten] := by
+  rw [(srvRun_proj sh evs σ j).2, hfresh, hproj, connRun_chunks sh chunks rest [] (by simp)]
+  simp
+
+/-- the same for a terminated line without a half-close: the answer is out as soon as the line
+end has arrived, independent of segmentation and of everything on other sockets. -/
+theorem answered_at_line_end (sh : Shared) (evs : List (Nat × Ev)) (σ : Conns) (j : Nat)
+    (chunks : List (List Nat)) (rest : List Ev) (hfresh : getConn σ j = .reading [])
+    (hproj : proj j evs = chunks.map .data ++ rest) (hlf : 10 ∈ chunks.flatten) :
+    outsOf j (srvRun sh σ evs).2 = [answer sh (firstLine chunks.flatten)] := by
+  rw [(srvRun_proj sh evs σ j).2, hfresh, hproj, connRun_line sh chunks rest [] (by simp) hlf]
+  simp
+
+/-- a socket whose line is never terminated (no LF, no half-close, no timeout yet) is not
+answered — and by `connection_isolated` that is all it does: it holds no one else up. -/
+theorem held_connection_silent (sh : Shared) (evs : List (Nat × Ev)) (σ : Conns) (j : Nat)
+    (chunks : List (List Nat)) (hfresh : getConn σ j = .reading [])
+    (hproj : proj j evs = chunks.map .data) (hno : 10 ∉ chunks.flatten) :
+    outsOf j (srvRun sh σ evs).2 = [] ∧ getConn (srvRun sh σ evs).1 j = .reading chunks.flatten := by
+  have := connRun_held sh chunks [] (by simpa using hno)
+  rw [(srvRun_proj sh evs σ j).2, (srvRun_proj sh evs σ j).1, hfresh, hproj, this]
+  simp
+
+/-- hypotheses satisfiable, non-trivially: socket 0 holds an unterminated line, socket 2 sends
+bytes that are not UTF-8 and never closes, socket 1 sends a request in two segments between
+them and half-closes — and gets the reply it would get alone. -/
+example (sh : Shared) :
+    outsOf 1 (srvRun sh []
+      [(0, .data [118, 49, 47]), (1, .data [118, 50, 47, 112]), (2, .data [255, 254]),
+       (1, .data [114, 13, 10]), (0, .data [120]), (1, .eof)]).2 =
+      [connAnswer sh [118, 50, 47, 112, 114, 13, 10]] :=
+  keeps_answering_other_clients sh _ [] 1 [[118, 50, 47, 112], [114, 13, 10]] [] rfl rfl
+
+
+
+/-! ### HTTP routing table -/
+
+/-- **http_routing_table.** Every URL path (as axum's router sees it; percent-decoding and query
+strings are outside the model) is answered either `200` with the BPSV text of the newest record —
+exactly when it is `/{product}/{versions|cdns|bgdl}` with a non-empty, slash-free product the
+database has — or `404`; nothing else, and no path is answered with another product's data. -/
+theorem http_routing_table (s : Server) (seqn : Nat) (path : Str) :
+    (∃ p e r, path = httpPath p e ∧ p ≠ [] ∧ '/' ∉ p ∧ latest s.db p = some r ∧
+        handleHttp s seqn path = some (respondBpsv s seqn r e)) ∨
+    (handleHttp s seqn path = none ∧
+      ∀ p e, p ≠ [] → '/' ∉ p → path = httpPath p e → latest s.db p = none) := by
+  cases h : handleHttp s seqn path with
+  | some body =>
+    left
+    obtain ⟨p, e, r, h1, h2, h3, h4, h5⟩ := handleHttp_some s seqn path body h
+    exact ⟨p, e, r, h1, h2, h3, h4, by rw [h5]⟩
+  | none =>
+    right
+    refine ⟨rfl, ?_⟩
+    intro p e hne hp hpath
+    rw [hpath, handleHttp_path s seqn p e hp hne] at h
+    cases hl : latest s.db p with
+    | none => rfl
+    | some r => rw [hl] at h; cases h
+
+/-- the table has a 200 row and 404 rows (instance; kernel-evaluated). -/
+example :
+    (handleHttp wServer 5 "/wow/cdns".toList).isSome = true ∧
+    handleHttp wServer 5 "/wow/certs".toList = none ∧ handleHttp wServer 5 "/nosuch/cdns".toList = none ∧
+    handleHttp wServer 5 "//cdns".toList = none ∧ handleHttp wServer 5 "/wow/cdns/".toList = none := by
+  decide +kernel
 
 end Cascette.Props.C15
